@@ -22,8 +22,10 @@ from .runner import (EXIT_HARNESS, EXIT_OK, EXIT_VIOLATION, WORKERS, HarnessFail
 
 TIERS = {
     "quick": {"gen": 80, "refused": 16, "cli": 24, "dec_small": 18, "dec_big": 12, "dec_bad": 8,
+              "wide": 8, "late": 12,
               "examples": "once", "reps": 8, "hist_len": 25, "families": 1, "marathons": 1},
     "thorough": {"gen": 900, "refused": 120, "cli": 80, "dec_small": 150, "dec_big": 24,
+                 "wide": 60, "late": 90,
                  "dec_bad": 60, "examples": "many", "reps": 40, "hist_len": 30, "families": 6, "marathons": 6, "extra_bursts": 3},
 }
 WORKER = os.path.join(VERIF_DIR, "sim", "c12_worker.py")
@@ -149,6 +151,24 @@ def build_pool(seed, tier):
             env = Env()
             add({"t": "decode", "tool": tool, "opts": opts, "data": b64(data), "env": env.to_json()},
                 "fam%d-%s" % (fam_i, label), "dec:" + tool, fault=fault)
+    # (own random stream from here on: what was drawn above stays what it was)
+    r2 = st.rng("workload-2")
+    # wide programs: more distinct variables / arrays / strings than any example has
+    for i in range(cfg.get("wide", 0)):
+        text = basicgen.gen_wide_program(r2)
+        o = basicgen.gen_options(r2)
+        if i % 2 == 0:
+            o["initialize_vars"] = True
+        add({"t": "convert", "text": text, "opts": o}, "wide%d" % i, basicgen.option_class(o))
+    # late refusals: relatives of pool programs that are refused only after most passes ran
+    # (same options); histories put them right before the accepted original
+    origs = [op for op in pool if op["t"] == "convert" and op["label"].startswith(("gen", "example:"))
+             and len(op["text"]) < 4000]
+    r2.shuffle(origs)
+    for op in origs[:cfg.get("late", 0)]:
+        for kind, text in basicgen.late_refusals(op["text"]):
+            add({"t": "convert", "text": text, "opts": op["opts"]}, "late-%s:%s" % (kind, op["key"]),
+                op["oclass"], fault="refused_late_" + kind)
     # de-duplicate by key, keep order
     seen, out = set(), []
     for op in pool:
@@ -331,6 +351,25 @@ def build_histories(seed, pool, tier):
             if len(part) >= 2:
                 for o in (part, part[::-1]):
                     hist.append({"proc": len(hist), "hashseed": hs.randrange(1, 2 ** 32 - 1), "ops": o})
+    # late refusals right before (and between two calls of) the accepted program they derive
+    # from: whatever the refused conversion built and did not release meets the same shapes
+    by_key = {op["key"]: i for i, op in enumerate(pool)}
+    fam = {}
+    for i, op in enumerate(pool):
+        if op["label"].startswith("late-"):
+            k = op["label"].partition(":")[2]
+            if k in by_key:
+                fam.setdefault(by_key[k], []).append(i)
+    fams = sorted(fam.items())
+    r.shuffle(fams)
+    for a in range(0, len(fams), 6):
+        pairs, triples = [], []
+        for orig, rel in fams[a:a + 6]:
+            for x in rel:
+                pairs += [x, orig]
+                triples += [orig, x, x, orig]
+        for o in (pairs, triples):
+            hist.append({"proc": len(hist), "hashseed": hs.randrange(1, 2 ** 32 - 1), "ops": o})
     return hist
 
 
@@ -375,7 +414,31 @@ def process_environment(hashseed):
                     "PYTHONINTMAXSTRDIGITS": r.choice(("4300", "4300", "0", "100000", "640"))},
         # are the standard streams of command-line and decoder ops terminals?
         "tty": r.random() < 0.25,
+        # does a file the command line looked for in vain below its working directory exist?
+        "plant": r.random() < 0.35,
     }
+
+
+def _no_aslr():
+    """Command prefix that starts a tool process without address-space randomisation, so that
+    object addresses (id(), the order in which the allocator hands blocks out again) are a
+    function of hash seed, environment and history like everything else - a change whose
+    effect goes through addresses then replays exactly.  Empty when the host refuses."""
+    import platform
+    import shutil
+    exe = shutil.which("setarch")
+    if not exe:
+        return []
+    cmd = [exe, platform.machine(), "-R"]
+    try:
+        a = [subprocess.run(cmd + [PYTHON, "-c", "print(id(object()))"], capture_output=True, text=True,
+                            timeout=60).stdout for _ in (0, 1)]
+    except Exception:
+        return []
+    return cmd if a[0] and a[0] == a[1] else []
+
+
+NO_ASLR = None
 
 
 def run_process(hashseed, ops, timeout=900, penv=None):
@@ -396,7 +459,10 @@ def run_process(hashseed, ops, timeout=900, penv=None):
             opt += ["-W", penv["warnings"]]
         if penv.get("bytes_warning"):
             opt += ["-bb"]
-        p = subprocess.run([PYTHON] + opt + [WORKER],
+        global NO_ASLR
+        if NO_ASLR is None:
+            NO_ASLR = _no_aslr()
+        p = subprocess.run(NO_ASLR + [PYTHON] + opt + [WORKER],
                            input=json.dumps({"ops": core, "penv": penv}), env=env,
                            capture_output=True, text=True, timeout=timeout, cwd=VERIF_DIR)
     except subprocess.TimeoutExpired:
@@ -427,9 +493,11 @@ def _alone(op, hashseed, penv=None):
 
 def _blame_environment(op, seed, pa, pb, ra):
     """Which component of the process environment flips the answer from ra?"""
-    for comp in ("optimize", "clock", "TZ", "cwd", "identity"):
+    for comp in ("optimize", "clock", "TZ", "cwd", "working-directory-contents", "identity"):
         mix = json.loads(json.dumps(pa))
-        if comp == "optimize":
+        if comp == "working-directory-contents":
+            mix["plant"] = pb.get("plant", False)
+        elif comp == "optimize":
             mix["optimize"] = pb.get("optimize", 0)
             mix["warnings"] = pb.get("warnings", "")
             mix["bytes_warning"] = pb.get("bytes_warning", False)
@@ -491,8 +559,8 @@ def minimise(pool, hist, results, key, obs):
     """obs: list of (proc, pos, response) for the disagreeing op."""
     op = next(o for o in pool if o["key"] == key)
     by_resp = {}
-    for proc, pos, resp in obs:
-        by_resp.setdefault(resp, (proc, pos))
+    for proc, pos, resp in sorted(obs, key=lambda x: (x[1], x[0])):
+        by_resp.setdefault(resp, (proc, pos))           # the shortest history showing each answer
     (ra, (pa, posa)), (rb, (pb, posb)) = sorted(by_resp.items())[:2]
     sa, sb = hist[pa]["hashseed"], hist[pb]["hashseed"]
     alone_a, alone_b = _alone(op, sa), _alone(op, sb)
@@ -520,19 +588,35 @@ def minimise(pool, hist, results, key, obs):
         if resp == alone:
             continue
         prefix = [pool[i] for i in hist[proc]["ops"][:pos]]
+        suffix = []
         again = run_process(s, prefix + [op])[0][-1]
         if again == alone:
-            # not reproducible from the recorded history: unstable under equal conditions
-            return {"kind": "unstable", "op": _core(op), "label": op["label"], "hashseed": s,
-                    "prefix": [_core(o) for o in prefix], "expect": [alone, resp]}
-        # ddmin the prefix
+            # the answer may go through object addresses, which also depend on what the process
+            # read after this op (the whole history is parsed up front): keep the ops that follow
+            suffix = [pool[i] for i in hist[proc]["ops"][pos + 1:]]
+            if run_process(s, prefix + [op] + suffix)[0][pos] == alone:
+                # not reproducible from the recorded history: unstable under equal conditions
+                return {"kind": "unstable", "op": _core(op), "label": op["label"], "hashseed": s,
+                        "prefix": [_core(o) for o in prefix], "expect": [alone, resp]}
+            for cut in (len(suffix) // 2, len(suffix) // 4, 1):
+                if 0 < cut < len(suffix) and \
+                        run_process(s, prefix + [op] + suffix[:cut])[0][pos] != alone:
+                    suffix = suffix[:cut]
+
+        runs = [0]
+
+        def at(pre, o):
+            runs[0] += 1
+            return run_process(s, pre + [o] + suffix)[0][len(pre)]
+        # ddmin the prefix (bounded: every reduction kept was validated, so stopping early
+        # only leaves a longer replay file)
         n = 2
-        while len(prefix) >= 1:
+        while len(prefix) >= 1 and runs[0] < 80:
             chunk = max(1, len(prefix) // n)
             reduced = False
             for a in range(0, len(prefix), chunk):
                 cand = prefix[:a] + prefix[a + chunk:]
-                if run_process(s, cand + [op])[0][-1] != alone:
+                if at(cand, op) != alone:
                     prefix, n, reduced = cand, max(2, n - 1), True
                     break
             if not reduced:
@@ -541,19 +625,19 @@ def minimise(pool, hist, results, key, obs):
                 n = min(len(prefix), n * 2)
         # shrink the texts: first the predecessors (the op's own answer alone stays `alone`),
         # then the op itself (its alone answer is recomputed)
-        for k in range(len(prefix)):
+        for k in range(len(prefix) if len(prefix) <= 4 else 0):
             def pred_k(o, k=k):
-                return run_process(s, prefix[:k] + [o] + prefix[k + 1:] + [op])[0][-1] != alone
+                return at(prefix[:k] + [o] + prefix[k + 1:], op) != alone
             prefix[k] = _shrink_text(prefix[k], pred_k, budget=15)
 
         def pred_op(o):
-            rs = run_process(s, prefix + [o])[0][-1]
-            return rs != _alone(o, s)
+            return at(prefix, o) != _alone(o, s)
         op = _shrink_text(op, pred_op, budget=15)
         alone = _alone(op, s)
-        after = run_process(s, prefix + [op])[0][-1]
+        after = at(prefix, op)
         return {"kind": "history", "op": _core(op), "label": op["label"], "hashseed": s,
-                "prefix": [_core(o) for o in prefix], "expect": [alone, after]}
+                "prefix": [_core(o) for o in prefix], "suffix": [_core(o) for o in suffix],
+                "expect": [alone, after]}
     return {"kind": "unstable", "op": _core(op), "label": op["label"], "hashseed": sa,
             "prefix": [], "expect": [ra, rb]}
 
@@ -571,7 +655,7 @@ def check_replay_doc(doc):
         return a != b, [a, b]
     if doc["kind"] == "history":
         alone = _alone(op, doc["hashseed"])
-        after = run_process(doc["hashseed"], doc["prefix"] + [op])[0][-1]
+        after = run_process(doc["hashseed"], doc["prefix"] + [op] + doc.get("suffix", []))[0][len(doc["prefix"])]
         return alone != after, [alone, after]
     seen = set()
     for _ in range(8):
@@ -629,6 +713,11 @@ def main(tier):
                                                                       sort_keys=True) +
                                                            process_environment(h["hashseed"])["cwd"]
                                                            for h in hist))}
+    fault_fired["working_directory_file_appears:processes_armed"] = sum(
+        1 for h in hist if process_environment(h["hashseed"]).get("plant"))
+    fault_fired["working_directory_file_appears:paths_the_tool_looked_for"] = sum(
+        p.get("looked_for_in_vain", 0) for _, p in results)
+    fault_fired["working_directory_file_appears:files_planted"] = sum(p.get("planted", 0) for _, p in results)
     for h in hist:
         seen_here = set()
         prev = None
